@@ -26,7 +26,7 @@ CLAIMS = {
                 "(zero or NaN margins fall to the random oracle), searches on a valid forest never fail and are well-formed for any "
                 "query bits, OrderedFloat's order is total on NaNs, an empty side always triggers the random split (all n < 2^53), the "
                 "build's only possible fuel failure is the re-split loop. Real crate: six degenerate data families x 7 metrics x n up "
-                "to hundreds (thousands in thorough), every build replayed through the model, every answer checked for well-formedness.",
+                "to hundreds (1 200 in thorough), every build replayed through the model, every answer checked for well-formedness.",
         "note": COMMON_NOTE + " Bounded build time is observed (poll limit), not proved (probabilistic termination).",
         "technique": "Lean 4 totality theorems + value-independent forest/store/search theorems + degenerate-data differential replay",
     },
